@@ -49,7 +49,16 @@ func NewBackend(ip string) (*Backend, error) {
 	if ip == "" {
 		ip = "127.0.0.1"
 	}
-	l, err := net.Listen("tcp", net.JoinHostPort(ip, "0"))
+	// ports come from the lab's range below the kernel's ephemeral range (no loopback self-connects
+	// when the gateway dials a port of the lab that is not listening at the moment)
+	var l net.Listener
+	var err error
+	for attempt := 0; attempt < 50; attempt++ {
+		l, err = net.Listen("tcp", net.JoinHostPort(ip, fmt.Sprint(FreePort())))
+		if err == nil {
+			break
+		}
+	}
 	if err != nil {
 		return nil, err
 	}
